@@ -136,7 +136,7 @@ Record state := mkS {
   nss : list (id * nat);             (* namespaceByID *)
   ipsets : list (id * list nat);     (* ipSetsByID: canonical members *)
   insync : bool;                     (* receivedInSync *)
-  closed : list (nat * (nat * stream));  (* channels the processor closed: join index, (closing op, content) *)
+  closed : list (nat * (id * nat * stream));  (* channels the processor closed: join index, (workload, closing op, content) *)
   njoins : nat;
   clk : nat }.                       (* index of the operation being processed *)
 
@@ -275,9 +275,9 @@ Definition broadcast (st : state) (m : msg) : list (id * einfo) :=
   map (fun we => (fst we, emit (clk st) [m] (snd we))) (eps st).
 
 (* close(ei.output): the channel content moves to the archive *)
-Definition archive (st : state) (ei : einfo) : list (nat * (nat * stream)) :=
+Definition archive (st : state) (w : id) (ei : einfo) : list (nat * (id * nat * stream)) :=
   match e_out ei with
-  | Some (j, s) => (j, (clk st, s)) :: closed st
+  | Some (j, s) => (j, (w, clk st, s)) :: closed st
   | None => closed st
   end.
 
@@ -288,7 +288,7 @@ Definition handle_join (st : state) (w uid : nat) : option state :=
             | Some ei => ei
             | None => mkE None 0 None [] [] []
             end in
-  let cl := archive st ei in
+  let cl := archive st w ei in
   let ei1 := mkE (Some (njoins st, [])) uid (e_upd ei) [] [] [] in
   match maybe_sync st w ei1 with None => None | Some ei2 =>
   let ei3 := emit (clk st) (map (fun av => MSAUpdate (fst av) (snd av)) (sas st)) ei2 in
@@ -309,7 +309,7 @@ Definition handle_leave (st : state) (w uid : nat) : option state :=
             let ei' := mkE None 0 (e_upd ei) (e_spol ei) (e_sprof ei) (e_sips ei) in
             let eps' := match e_upd ei with None => remove w (eps st) | Some _ => insert w ei' (eps st) end in
             Some (mkS eps' (pols st) (profs st) (sas st) (nss st) (ipsets st) (insync st)
-                      (archive st ei) (njoins st) (clk st))
+                      (archive st w ei) (njoins st) (clk st))
         end
       else
         (* deferred clean-up also runs on the mismatch path *)
@@ -335,7 +335,7 @@ Definition handle_wep_remove (st : state) (w : id) : option state :=
   | Some ei =>
       let ei' := emit (clk st) [MWepRemove w] ei in
       Some (mkS (remove w (eps st)) (pols st) (profs st) (sas st) (nss st) (ipsets st) (insync st)
-                (archive st ei') (njoins st) (clk st))
+                (archive st w ei') (njoins st) (clk st))
   end.
 
 Definition handle_pol_update (st : state) (p : id) (r : rules) : option state :=
@@ -462,7 +462,7 @@ Definition run (ops : list op) : state * option nat := run_from init ops.
 
 (* ---- observables: every channel ever handed to the processor ------------------------------------------ *)
 
-(* join index -> (closing op if closed, content) *)
-Definition channels (st : state) : list (nat * (option nat * stream)) :=
-  flat_map (fun we => match e_out (snd we) with Some (j, s) => [(j, (None, s))] | None => [] end) (eps st)
-  ++ map (fun x => (fst x, (Some (fst (snd x)), snd (snd x)))) (closed st).
+(* join index -> (workload, closing op if closed, content) *)
+Definition channels (st : state) : list (nat * (id * option nat * stream)) :=
+  flat_map (fun we => match e_out (snd we) with Some (j, s) => [(j, (fst we, None, s))] | None => [] end) (eps st)
+  ++ map (fun x => match x with (j, (w, c, s)) => (j, (w, Some c, s)) end) (closed st).
